@@ -82,7 +82,8 @@ def run(ctx, rep):
                 lo = utext(sl.lower) if sl.lower is not None else None
                 hi = utext(sl.upper) if sl.upper is not None else None
                 good = (lo is None and hi == "STRATEGY_NAME_HASH_LENGTH") or \
-                       (hi is None and lo == "STRATEGY_NAME_HASH_LENGTH + 1")
+                       (hi is None and lo == "STRATEGY_NAME_HASH_LENGTH + 1") or \
+                       (lo == "STRATEGY_NAME_HASH_LENGTH" and hi == "STRATEGY_NAME_HASH_LENGTH + 1")   # the separator itself
                 imp = f.module.imports.get("STRATEGY_NAME_HASH_LENGTH")
                 good = good and imp == ("flumine.utils", "STRATEGY_NAME_HASH_LENGTH") and sl.step is None
                 rep.check(good, "R1", key(f, sub, "reader slices at the writer's hash length (+1 for the separator)"), f, sub,
@@ -252,6 +253,13 @@ def _eval_charset(node):
 
 _O = "flumine/order/order.py"
 MUTANTS = [
+    dict(id="c19-hash-drops-non-ascii", file="flumine/utils.py", func="create_cheap_hash",
+         old="    hash_.update(txt.encode())", new="    hash_.update(txt.encode(\"ascii\", \"ignore\"))", expect=["R1"],
+         why="names differing only in non-ASCII characters share a hash"),
+    dict(id="c19-cleared-orders-parsed-by-separator", file="flumine/markets/blotter.py", func="Blotter.process_cleared_orders",
+         old="            order_id = cleared_order.customer_order_ref[STRATEGY_NAME_HASH_LENGTH + 1 :]",
+         new="            order_id = cleared_order.customer_order_ref.partition(\"-\")[2]", expect=["R1"],
+         why="orders created with another separator are never attributed"),
     dict(id="c19-cleared-needs-whole-reference", file="flumine/markets/blotter.py", func="Blotter.process_cleared_orders",
          old="            if order_id in self:",
          new="            if order_id in self and self[order_id].customer_order_ref == cleared_order.customer_order_ref:",
